@@ -18,16 +18,19 @@ Wills == {"none", "plain", "retained"}
 Ends == {"drop",          \* the socket is closed
          "badack",        \* protocol error: an acknowledgement nobody solicited, the router closes the connection
          "disconnect",    \* the client sends DISCONNECT, then closes
+         "disconnect_props", \* the same with an MQTT 5 DISCONNECT that carries a reason code and a property (Reason String);
+                          \* a 3.1.1 client has no such packet: its rows send the plain one
          "keepalive"}     \* the client goes silent, the broker's keep-alive timer ends the connection
 Priors == {"none", "fired"}       \* an earlier connection under the same client id whose will was published
 Versions == {4, 5}
 
+Disc(r) == r.end \in {"disconnect", "disconnect_props"}
 Rows == [will : Wills, wq : {0, 1}, end : Ends, prior : Priors, v : Versions]
 
 \* number of times the subscriber that was there all along sees the will of the connection under test
-Live(r) == IF r.will # "none" /\ r.end # "disconnect" THEN 1 ELSE 0
+Live(r) == IF r.will # "none" /\ ~Disc(r) THEN 1 ELSE 0
 \* a subscriber that arrives afterwards gets it as a retained message exactly when it was registered with retain and fired
-Late(r) == IF r.will = "retained" /\ r.end # "disconnect" THEN 1 ELSE 0
+Late(r) == IF r.will = "retained" /\ ~Disc(r) THEN 1 ELSE 0
 \* the earlier connection's will is seen once (by the first subscriber) and never again
 PriorSeen(r) == IF r.prior = "fired" THEN 1 ELSE 0
 
@@ -35,7 +38,7 @@ PriorSeen(r) == IF r.prior = "fired" THEN 1 ELSE 0
 \* a client without a will never causes one (also not the will of an earlier connection)
 Demanded(r) ==
     /\ (r.will = "none" => Live(r) = 0 /\ Late(r) = 0)
-    /\ (r.end = "disconnect" => Live(r) = 0 /\ Late(r) = 0)
-    /\ (r.will # "none" /\ r.end # "disconnect" => Live(r) = 1)
+    /\ (Disc(r) => Live(r) = 0 /\ Late(r) = 0)
+    /\ (r.will # "none" /\ ~Disc(r) => Live(r) = 1)
     /\ Late(r) <= Live(r)
 =============================================================================
